@@ -29,6 +29,7 @@ import (
 	"fmt"
 	"os"
 	"sort"
+	"strings"
 
 	"ariga.io/atlas/sql/migrate"
 	"verifharness/lib/dmodel"
@@ -62,6 +63,41 @@ func flagCases(c *rt.Ctx) []FCase {
 					continue
 				}
 				out = append(out, FCase{Dialect: d, Base: m.Name, Shape: "hand:" + h})
+			}
+		}
+		// (2b) multi-clause ModifyTable lists: hand-built, every order of {reversible, irreversible} clause
+		// pairs; and from the real differ: an irreversible edit (table comment / charset added on MySQL, an
+		// unnamed check) combined with a named check on the same table, in both edit orders
+		if d != "sqlite" {
+			for mi, m := range models {
+				if c.Quick() && mi >= 3 {
+					break
+				}
+				for _, pn := range pairNames(d) {
+					out = append(out, FCase{Dialect: d, Base: m.Name, Shape: "hand:" + pn})
+				}
+			}
+			nPairs := 0
+			for _, m := range models {
+				if nPairs >= c.Pick(60, 1000) {
+					break
+				}
+				for _, e1 := range dmodel.Catalogue(m) {
+					f := strings.Split(e1.ID, "|")
+					irr := e1.Kind == "table.comment.add" || e1.Kind == "table.charset.add" || e1.Kind == "check.add" && f[len(f)-1] == "unnamed"
+					if !irr || len(f) < 2 {
+						continue
+					}
+					m1 := e1.Apply(m)
+					for _, e2 := range dmodel.Catalogue(m1) {
+						g := strings.Split(e2.ID, "|")
+						if e2.Kind == "check.add" && g[len(g)-1] == "named" && len(g) > 1 && g[1] == f[1] {
+							out = append(out, FCase{Dialect: d, Base: m.Name, Edits: []string{e1.ID, e2.ID}, Shape: "modify"})
+							nPairs++
+							break
+						}
+					}
+				}
 			}
 		}
 		// (3) single edits in both directions, stratified by edit kind over the pool
